@@ -10,10 +10,8 @@ package outputstream
 
 import (
 	"context"
-	"encoding/binary"
 	"encoding/json"
 	"fmt"
-	"math"
 	"os"
 	"sort"
 	"strconv"
@@ -23,9 +21,6 @@ import (
 
 	"github.com/robustirc/robustirc/internal/robust"
 	"github.com/robustirc/robustirc/internal/verif/vsync"
-	"github.com/syndtr/goleveldb/leveldb"
-	"github.com/syndtr/goleveldb/leveldb/opt"
-	"github.com/syndtr/goleveldb/leveldb/storage"
 )
 
 // ---- program description ---------------------------------------------------------------
@@ -314,48 +309,7 @@ func c08Check(p c08Prog, r *c08Run, outcome string, blocked []string, panics []i
 // c08NewStream builds an OutputStream exactly as NewOutputStream/reset do, but on LevelDB's
 // in-memory storage (an execution costs ~0.3 ms instead of ~2.5 ms).  TestVerifC08 compares it
 // once per run with a stream made by the real constructor.
-var c08SharedDB *leveldb.DB
-var c08SharedUses int
-
-// c08NewStream returns a stream in the state NewOutputStream/reset produce.  Opening and closing
-// a LevelDB costs ~2.4 ms even on in-memory storage, so the executions of one worker share one
-// database (in-memory storage) that is emptied between executions; the OutputStream object
-// itself (locks, condition variable, cache, lastseen) is fresh every time.
-func c08NewStream() (*OutputStream, error) {
-	o := &OutputStream{messagesCache: make(map[uint64]*messageBatch)}
-	o.newMessage = vsync.NewCond(&o.messagesMu)
-	c08SharedUses++
-	if c08SharedDB != nil && c08SharedUses%200 == 0 {
-		// tombstones accumulate in the memtable and slow the emptying scan down: start afresh
-		c08SharedDB.Close()
-		c08SharedDB = nil
-	}
-	if c08SharedDB == nil {
-		db, err := leveldb.Open(storage.NewMemStorage(), &opt.Options{NoSync: true, BlockCacheCapacity: 2 * 1024 * 1024})
-		if err != nil {
-			return nil, err
-		}
-		c08SharedDB = db
-	}
-	db := c08SharedDB
-	it := db.NewIterator(nil, nil)
-	var batch leveldb.Batch
-	for it.Next() {
-		batch.Delete(append([]byte(nil), it.Key()...))
-	}
-	it.Release()
-	if err := db.Write(&batch, nil); err != nil {
-		return nil, err
-	}
-	o.db = db
-	o.lastseen = messageBatch{
-		Messages: []Message{{Id: robust.Id{Id: 0}, InterestingFor: make(map[uint64]bool)}},
-		NextID:   math.MaxUint64,
-	}
-	var key [8]byte
-	binary.BigEndian.PutUint64(key[:], uint64(0))
-	return o, o.db.Put(key[:], o.lastseen.marshal(), nil)
-}
+func c08NewStream() (*OutputStream, error) { return verifNewStreamImpl() }
 
 // c08SameInitialState compares the hand-built stream with one made by NewOutputStream.
 func c08SameInitialState(tmp string) error {
